@@ -348,3 +348,8 @@ for _do, _da in ((6, 6), (6, 18), (18, 6)):
                bounds='reserves, offer [1,2^128), tolerance any Decimal; calculate_stableswap_y replaced by an arbitrary 256-bit result or error', covers=['ok'],
                abstractions=['calculate_stableswap_y replaced by an arbitrary function (fresh 256-bit result or Err per call)'],
                opts={'abstract': {'pool-manager::calculate_stableswap_y': _abs_stableswap_y}}, replay=_replay_stable(_do, _da))(_ob_stable_units(_do, _da))
+
+
+# ---------------------------------------------------------------- multi-hop minimum_receive (clause shared with C04's routed-swap obligations)
+from . import c04 as _c04   # noqa: E402
+share('C04', 'C13', 'H', lambda n: n in ('R1.route_hops_AB_BC', 'R1.route_hops_AB_BA_AB'))
